@@ -165,7 +165,7 @@ END = "(* end of SteihaugGen *)"
 
 def write(repo=None, outfile=None, write_ref=False):
     repo = repo or os.environ.get("VERIF_REPO", "/repo")
-    outfile = outfile or os.path.join(VERIF, "coq", "gen", "SteihaugGen.v")
+    outfile = outfile or os.path.join(os.environ.get("VERIF_GEN_OUT") or os.path.join(VERIF, "coq", "gen"), "SteihaugGen.v")
     return gl.write_generic(repo, outfile, write_ref, units, HEADER, END, REF, "SteihaugGen.ref.v",
                             "SteihaugGen.v — by translate/gen_steihaug.py", os.path.join(repo, HPP), BINDERS, CTX_ARGS)
 
